@@ -71,6 +71,7 @@ def run(program, res, tier):
     c04._s1c(program, r2)
     c04._s2(program, r2)
     c16._s3(program, Relabel(res, {"*": "C02-S2"}))
+    c16._s3c(program, Relabel(res, {"*": "C02-S2"}))
     model = NodeModel(program)
     r3 = Relabel(res, {"*": "C02-S3"})
     c10._s3(program, model, r3)
